@@ -359,18 +359,18 @@ def spellings(smi, n_random, seed):
 
 
 def has_fused_aromatic(smi):
-    """class predicate of the known Benson-perception ambiguity: two bond-sharing six-rings, both RDKit-aromatic,
-    at least one all-carbon"""
+    """class predicate of the known aromaticity-perception ambiguity: an RDKit-aromatic ring that shares a bond with
+    another ring (naphthalene-type systems, and any ring fused onto an aromatic ring).  For these the Kekule form - and
+    with it the Benson perception and every bond-order-dependent pattern - depends on the atom order / call sequence."""
     mol = Chem.MolFromSmiles(smi)
     if mol is None:
         return False
     ri = mol.GetRingInfo()
-    rings = [set(r) for r in ri.AtomRings() if len(r) == 6 and all(mol.GetAtomWithIdx(i).GetIsAromatic() for i in r)]
-    for a, b in itertools.combinations(rings, 2):
-        if len(a & b) >= 2:
-            if all(mol.GetAtomWithIdx(i).GetSymbol() == 'C' for i in a) or \
-                    all(mol.GetAtomWithIdx(i).GetSymbol() == 'C' for i in b):
-                return True
+    rings = [set(r) for r in ri.AtomRings()]
+    arom = [all(mol.GetAtomWithIdx(i).GetIsAromatic() for i in r) for r in rings]
+    for (a, fa), (b, fb) in itertools.combinations(list(zip(rings, arom)), 2):
+        if len(a & b) >= 2 and (fa or fb):
+            return True
     return False
 
 
